@@ -164,6 +164,20 @@ func (p recvProp) Oracle(inp interface{}, obs Sx) (string, string) {
 	nerr, ndisc, nquit := 0, 0, 0
 	var discInb int64 = -1
 	for _, e := range syncLog {
+		if in.Component && e.L[0].Z >= 2 && e.L[0].Z <= 9 {
+			// component: the loop's other actions are reported as (kind count)
+			n := int(e.L[1].Z)
+			switch e.L[0].Z {
+			case 4:
+				nerr += n
+			case 5:
+				ndisc += n
+				discInb = 0
+			case 9:
+				nquit += n
+			}
+			continue
+		}
 		switch e.L[0].Z {
 		case 4:
 			nerr++
